@@ -3,6 +3,10 @@ that a reader can audit what "all documents / all arguments" means for each chec
 import itertools
 import pathlib
 
+class Tok(str):
+    """A string of a sub-type of str (what a round-trip YAML loader hands out for quoted scalars)."""
+
+
 # ---- value alphabet V (leaves of F-type documents) and key alphabet K -------------------
 V = [
     0, 1, -1, 2, 3, 1.5, 0.0, True, False, None, "", "a", "b", "1", "3", "3.0", "true", "FALSE",
